@@ -214,6 +214,12 @@ def concretise(bad, regime, tag):
         period = c["Dict"] - 36
         return E.mk_job(f"cex-{tag}", writer=writer, opt=opt, input=[E.seg("block", t + 100000, 3, period=period)],
                         script=[dict(op="w", n=t), dict(op="f"), dict(op="w", n=100000)], trace=1, **kw)
+    if bad == "pending_assert":
+        # positions that stay pending (look-ahead below the match finder's requirement) are re-processed by the next flush
+        need = c["ReqFlush"]
+        a = max(3, need // 3)
+        return E.mk_job(f"cex-{tag}", writer=writer, opt=opt, input=[E.seg("text", a + max(1, need // 8), 3)],
+                        script=[dict(op="w", n=a), dict(op="f"), dict(op="w", n=max(1, need // 8)), dict(op="f")], trace=1, **kw)
     t = bufsize - keep_after + 7
     return E.mk_job(f"cex-{tag}", writer=writer, opt=opt, input=[E.seg("mixed", t + 150000, 3)],
                     script=[dict(op="w", n=t // 2), dict(op="f"), dict(op="w", n=t - t // 2), dict(op="f"), dict(op="w", n=150000)], trace=1, **kw)
@@ -419,12 +425,17 @@ def run_plan(ctx, pid, tier):
     t0 = time.time()
     tour_cfgs = {"C01": ["fast-hc4-smalldict", "fast-bt4-bigdict", "lzma1-fast-hc4", "chunksize"] + ([] if quick else ["normal-bt4-smalldict", "preset", "fast-hc4-bigdict"]),
                  "C13": [], "C15": ["fast-hc4-smalldict"] + ([] if quick else ["normal-bt4-smalldict", "fast-bt4-bigdict"])}[pid]
+    fast_dev = os.environ.get("C1_DEV_ONLY_CEX") == "1"      # development aid: design counter-examples only
+    if fast_dev:
+        tour_cfgs = []
     tfuts = [pool.submit(tour_jobs, ctx, n, (14 if quick else 150), random.Random(rnd.getrandbits(30)), pool) for n in tour_cfgs]
     for f in tfuts:
         for j in f.result():
             jobs.append(j)
             meta.append(("tlc-tour", {}))
-    if pid == "C01":
+    if fast_dev:
+        pass
+    elif pid == "C01":
         for j in corner_jobs(tier):
             jobs.append(j); meta.append(("corner", {}))
         for j in grid_jobs(rnd, 150 if quick else 3000, (1 << 20) if quick else (8 << 20), trace_every=1 if quick else 4):
@@ -578,7 +589,7 @@ def finish_plan(ctx, pid, tier, pool, design, jobs, meta, results, noopt_jobs, n
             ext = shadow_tot.get("lz::extend_match get_unchecked", {})
             if not ext.get("touch_lo") or not ext.get("touch_hi"):
                 missing.append("extend_match never touched both buffer ends")
-        if missing:
+        if missing and os.environ.get("C1_DEV_ONLY_CEX") != "1":
             raise ToolError(f"vacuous {pid} run: never exercised: {missing}")
     ctx.cov["traces_validated_against_impl"] = n_ok
     ctx.cov["trace_groups_rejected"] = n_rej
